@@ -185,7 +185,14 @@ func (c *Connection) dispatchInbound(_ uint32, _ uint32, call *InboundCall, fram
 			LogField{"remotePeer", c.remotePeerInfo},
 			ErrField(err),
 		).Error("Couldn't read method.")
-		c.opts.FramePool.Release(frame)
+		// The frame belongs to the call's reader by now. If the method name
+		// continued into another fragment the reader has already released it;
+		// release whatever the reader still holds, through the reader.
+		if f := call.initialFragment; f != nil {
+			call.initialFragment = nil
+			f.done()
+		}
+		call.releasePreviousFragment()
 		return
 	}
 
